@@ -1,5 +1,5 @@
 """C12: lazy and causal - order n uses only Hamiltonian terms of order <= n, each at most once."""
-from props.graph import BOX, GraphProp
+from props.graph import GraphProp, world_box, world_cap
 
 
 class Prop(GraphProp):
@@ -34,8 +34,8 @@ class Prop(GraphProp):
         if r.random() < 0.4:
             w = self.gen_world(r, tier, self.profile_poison)
             nb, npert = len(w["sizes"]), w["npert"]
-            cap = {1: 4, 2: 3, 3: 2}[npert]
-            cands = [n for n in itertools.product(range(BOX[npert] + 1), repeat=npert) if 1 <= sum(n) <= cap]
+            cap = world_cap(w)
+            cands = [n for n in itertools.product(range(world_box(w) + 1), repeat=npert) if 1 <= sum(n) <= cap]
             n = r.choice(cands)
             c = r.randrange(len(w["comps"]))
             s = r.choice(["H_tilde", "U", "U_inv"] + (["d0", "d2"] if w.get("derived") else []))
